@@ -47,6 +47,9 @@ class GoError(Opaque):
             return self.wraps
         raise Unsupported('GoError.%s' % method)
 
+    def go_implements(self, ex, at, need):
+        return set(need) <= ({'Error', 'Unwrap'} if self.wraps is not None else {'Error'})
+
     def __repr__(self):
         return 'GoError(%s,%r)' % (self.kind, self.msg)
 
